@@ -71,6 +71,13 @@ PROPS = {
         "parts": [{"engine": "qmodel", "test": "TestProp_C13_LockStep", "quick": 2000, "thorough": 240000},
                   {"engine": "qmodel", "test": "TestProp_C13_LongLockStep", "quick": 48, "thorough": 1600, "shards": {"quick": 8}, "shrinktime": "8s"}],
     },
+    "C15": {
+        "rule": "batch crash tier (engine qmodel): a child process runs scripts that end in a batch enqueue of 257-600 items (the store call behind Admin publish) and is "
+                "SIGKILLed at the n-th row insert (n around 256 / 512) or around the commit; after reopening, each batch is stored as a whole or not at all",
+        "assumptions": [],
+        "guards": [],
+        "parts": [{"engine": "qmodel", "test": "TestProp_C15_BatchCrash", "quick": 96, "thorough": 4000, "shards": {"quick": 8}, "shrinktime": "10s"}],
+    },
     "C14": {
         "rule": "big-list tier: 600-1100 messages, id lists of 255-1001 ids and by-filter limits of 1000 (where implementations work in chunks), judged by the same selector || "
                 "store tier: populations over routes x targets x all five states with tie timestamps, then id-list and by-filter mutations "
